@@ -17,14 +17,14 @@ func init() {
 	ev.Register(&ev.Check{
 		ID:             "C04",
 		Level:          "exploration",
-		Rule:           "slots = annotated values (also containers under type lists) with a rule set, an example obeying it and, per rule, single-rule corruptions of the example (bound -/+ one step, length +-1, non-matching string, non-member, malformed format, one item too few/many, wrong declared kind, value outside every or-alternative / referenced type). (=>) ALL shapes <= 3 (thorough 4) nodes with every scalar leaf replaced by every slot (good example) plus every slot in 17 nesting contexts (root, property, array element first/later, nested twice, before/after siblings that carry type lists of their own, inside an added user type): whenever Check succeeds Validate(example text) must succeed. (<=) every slot x every context x every corruption: Check must fail and report the byte offset of the corrupted value (renderer's offset map). (pairs) EVERY ordered pair of slots as sibling properties and as sibling array items, both good (verdict = conjunction of the single verdicts; example validates) and with one of the two corrupted in every way (Check must fail at the corrupted sibling's offset). Non-trivial = distinct rendered schema.",
+		Rule:           "slots = annotated values (also containers under type lists) with a rule set, an example obeying it and, per rule, single-rule corruptions of the example (bound -/+ one step, length +-1, non-matching string, non-member, malformed format, one item too few/many, wrong declared kind, value outside every or-alternative / referenced type). (=>) ALL shapes <= 3 (thorough 4) nodes with every scalar leaf replaced by every slot (good example) plus every slot in 17 nesting contexts (root, property, array element first/later, nested twice, before/after siblings that carry type lists of their own, inside an added user type): whenever Check succeeds Validate(example text) must succeed. (<=) every slot x every context x every corruption: Check must fail and report the byte offset of the corrupted value (renderer's offset map). (rule sets) every rule set of <= 3 (4) names from a scalar kind's applicable pool with boundary parameters x every example candidate: whenever the set is usable, every candidate the reference rejects must make Check fail at the example's offset. (pairs) EVERY ordered pair of slots as sibling properties and as sibling array items, both good (verdict = conjunction of the single verdicts; example validates) and with one of the two corrupted in every way (Check must fail at the corrupted sibling's offset). Non-trivial = distinct rendered schema.",
 		Run:            run,
 		Replay:         replay,
 		QuickBudget:    80 * time.Second,
 		ThoroughBudget: 12 * time.Minute,
 		Assumptions: []string{
 			"which error code Check reports is not asserted",
-			"for a corruption inside an added user type only the failure of Check is asserted, not the position (C07 covers rendering of such errors)",
+			"for a corruption inside an added user type the error must name the type's own file and the offset of the value in it",
 		},
 	})
 }
@@ -317,6 +317,19 @@ func evalCase(cs caseT) (string, string) {
 			return "wrong-position", fmt.Sprintf("%s: Check fails (%s) but reports position %d; the offending value starts at byte %d", c.Describe(), r, r.Pos, want)
 		}
 	}
+	if inType && slotNode != nil {
+		// the violation lies in the text of the added type: the error names that
+		// file and the offset of the value in it
+		for _, t := range c.Types {
+			if t.Name != "@W" {
+				continue
+			}
+			want := gen.Render(t.Body, gen.Canonical).ValOff[slotNode]
+			if r.File != "@W" || !r.HasPos || int(r.Pos) != want {
+				return "wrong-position-in-type", fmt.Sprintf("%s: Check fails (%s) and reports file %q position %d; the offending value starts at byte %d of the type @W", c.Describe(), r, r.File, r.Pos, want)
+			}
+		}
+	}
 	return "", ""
 }
 
@@ -351,6 +364,7 @@ func run(c *ev.Ctx) {
 	}
 	forward(c, ss)
 	pairs(c, ss)
+	ruleSetFamily(c)
 }
 
 // forward: all shapes with every scalar leaf replaced by every slot.
@@ -479,6 +493,11 @@ func replayPair(raw stdjson.RawMessage) (bool, string, bool) {
 }
 
 func replay(raw stdjson.RawMessage) (bool, string) {
+	var rc rsCase
+	if err := stdjson.Unmarshal(raw, &rc); err == nil && rc.Kind != "" {
+		dir, desc := rc.eval()
+		return dir != "", desc
+	}
 	if v, d, ok := replayPair(raw); ok {
 		return v, d
 	}
